@@ -88,6 +88,33 @@ func registerTimeStubs() {
 		*cell = st
 		return cell
 	}
+	// time.NewTicker: as NewTimer (the model has no elapsed time: the channel fires
+	// whenever no goroutine can make progress otherwise; the period is not
+	// modelled - a harness that cares overrides Reset and records its argument)
+	specials["time.NewTicker"] = func(i *interpreter, fr *frame, fn *ssa.Function, args []value) value {
+		tt := fn.Signature.Results().At(0).Type().(*types.Pointer).Elem()
+		st := zero(tt).(structure)
+		st[0] = &chanv{cap: 1, timer: true, name: "time.NewTicker"}
+		cell := new(value)
+		*cell = st
+		return cell
+	}
+	specials["(*time.Ticker).Stop"] = func(i *interpreter, fr *frame, fn *ssa.Function, args []value) value {
+		p := args[0].(*value)
+		if c, _ := (*p).(structure)[0].(*chanv); c != nil && c.timer {
+			i.logUndo(func() { c.timer = true })
+			c.timer = false
+		}
+		return nil
+	}
+	specials["(*time.Ticker).Reset"] = func(i *interpreter, fr *frame, fn *ssa.Function, args []value) value {
+		p := args[0].(*value)
+		if c, _ := (*p).(structure)[0].(*chanv); c != nil && !c.timer {
+			i.logUndo(func() { c.timer = false })
+			c.timer = true
+		}
+		return nil
+	}
 	specials["(*time.Timer).Stop"] = func(i *interpreter, fr *frame, fn *ssa.Function, args []value) value {
 		p := args[0].(*value)
 		c, _ := (*p).(structure)[0].(*chanv)
